@@ -9,12 +9,16 @@ use std::str::FromStr;
 
 fn render_para(role: &str, present: &[usize], comment: bool, vs: usize) -> String { render_para_n(role, present, comment, vs, 0) }
 /// (the n-th paragraph of a document gets its own package name)
-fn render_para_n(role: &str, present: &[usize], comment: bool, vs: usize, n: usize) -> String {
+fn render_para_n(role: &str, present: &[usize], comment: bool, vs: usize, n: usize) -> String { render_para_o(role, present, comment, vs, n, false) }
+fn render_para_o(role: &str, present: &[usize], comment: bool, vs: usize, n: usize, rev: bool) -> String {
     let mut t = String::new();
     if role == "neither" { return "X-Other: value\nX-More: v\n".into(); }
     let tab = table(role);
     let mut first = true;
-    for (i, (name, _m, vals)) in tab.iter().enumerate() {
+    // (a copyright header must START with its Format field: C17's gate - it keeps its order)
+    let order: Vec<usize> = if rev && role != "copyright_header" { (0..tab.len()).rev().collect() } else { (0..tab.len()).collect() };
+    for i in order {
+        let (name, _m, vals) = &tab[i];
         if !present.contains(&(i + 1)) { continue; }
         let v = vals[(vs.max(1) - 1).min(vals.len() - 1)];
         let named = if n > 0 && (*name == "Source" || *name == "Package") { format!("{}{}", v, n + 1) } else { v.to_string() };
@@ -37,7 +41,7 @@ pub fn render(case: &Value) -> String {
     let mut parts = vec![];
     for (n, p) in case["paras"].as_array().unwrap().iter().enumerate() {
         let present: Vec<usize> = p["present"].as_array().map(|a| a.iter().map(|x| x.as_u64().unwrap() as usize).collect()).unwrap_or_default();
-        parts.push(render_para_n(p["role"].as_str().unwrap(), &present, comments, vs, n));
+        parts.push(render_para_o(p["role"].as_str().unwrap(), &present, comments, vs, n, case["rev"].as_bool() == Some(true)));
     }
     let sep = if comments { format!("{}# between paragraphs\n{}", "\n".repeat(blanks), "\n") } else { "\n".repeat(blanks) };
     parts.join(&sep)
@@ -202,7 +206,9 @@ pub fn run(case: &Value, _seed: u64) -> Outcome {
     match (a, b) {
         (Some(mut a), Some(mut b)) => {
             if kind == "copyright" || kind == "control" { a.sort(); b.sort(); }
-            if kind == "repositories" { for p in a.iter_mut().chain(b.iter_mut()) { p.sort(); } }
+            // (the typed value prints its fields in declaration order: the order of the fields INSIDE a paragraph is not compared)
+            if kind == "repositories" || case["rev"].as_bool() == Some(true) { for p in a.iter_mut().chain(b.iter_mut()) { p.sort(); } }
+            if case["rev"].as_bool() == Some(true) { a.sort(); b.sort(); }
             if a != b { o.v("C20", "matches_lossless", &api, "mismatch", &feats, &text, format!("lossless view of the input {:?}, typed value prints {:?}", a, b)); }
         }
         _ => o.v("C20", "matches_lossless", &api, "mismatch", &feats, &text, format!("printed value is not a deb822 document: {:?}", t2)),
